@@ -207,8 +207,20 @@ def configs(tier):
         UpdateHarness("3-one-tile", [[(T0, R["left"], 1.0)], [(T0, R["right"], 2.0)], [(T0, R["top"], 3.0)]]),
         UpdateHarness("2x2-sequential", [[(T0, R["left"], 1.0), (T0, R["px"], 5.0)], [(T0, R["right"], 2.0), (T0, R["mid"], 6.0)]]),
     ]
+    # deeper tiles whose position digits run together to the same string ("4112"): an updater that touched
+    # the partner tile earlier and one that did not must still exclude each other on the shared tile
+    TA, TB = (4, 1, 12), (4, 11, 2)
+    cfgs += [
+        UpdateHarness("digit-collision", [[(TA, R["px"], 5.0), (TB, R["left"], 1.0)], [(TB, R["right"], 2.0)]]),
+        UpdateHarness("digit-collision-LXY", [[(TB, R["px"], 5.0), (TA, R["left"], 1.0)], [(TA, R["mid"], 2.0)]], scheme="LXY"),
+    ]
+    # the real parallel multi-TAN tiling of two images sharing tiles: its workers are the updaters, and the
+    # parent's lock-file clean-up must not run while they still hold locks
+    cfgs.append(stages.MultiTan(nimg=2, W=2))
     if tier == "thorough":
+        cfgs.append(stages.MultiWcs(nimg=2, W=2))
         cfgs += [
+            UpdateHarness("digit-collision-3", [[((5, 1, 23), R["px"], 5.0), ((5, 12, 3), R["left"], 1.0)], [((5, 12, 3), R["right"], 2.0)], [((5, 12, 3), R["top"], 3.0)]]),
             UpdateHarness("3x2-one-tile", [[(T0, R["left"], 1.0), (T0, R["px"], 4.0)], [(T0, R["right"], 2.0), (T0, R["mid"], 5.0)], [(T0, R["top"], 3.0)]]),
             UpdateHarness("2x2-two-tiles", [[(T0, R["left"], 1.0), (T1, R["px"], 5.0)], [(T1, R["right"], 2.0), (T0, R["mid"], 6.0)]]),
         ]
